@@ -776,7 +776,10 @@ Qed.
 
 Lemma run_return_env es s : env_eq false anyerr (r_env s) (run_return rec es s).
 Proof.
-  unfold run_return. destruct es as [|e [|e' r]]; [reflexivity|call_rec (r_env s)|].
+  unfold run_return. destruct es as [|e [|e' r]]; [reflexivity| |].
+  { pose proof (Hrec (CExpr e) s) as Hx. simp.
+    destruct (rec (CExpr e) s) as [s1|er s1|a]; simp; [exact Hx| |exact I].
+    destruct Hx as [[Hx _]|[Hx _]]; [discriminate|]. right. split; [exact Hx|exact I]. }
   apply eval_values_env; [imp_solve|reflexivity|]. intros vs s1 H1. destruct (new_slice _ _) as [st' sl]. fin.
 Qed.
 
